@@ -38,7 +38,8 @@ def _stepper(spec_json):
         made = _W["make"](spec)
         dut, ins, outs = made[0], made[1], made[2]
         opts = made[3] if len(made) > 3 else {}
-        st = Stepper(dut, ins, outs, clocks=tuple(opts.get("clocks", ("sys",))))
+        st = Stepper(dut, ins, outs, clocks=tuple(opts.get("clocks", ("sys",))),
+                     record_multireg=bool(opts.get("meta")))
         st.opts = opts
         _W["st"][spec_json] = st
     return st
@@ -51,9 +52,14 @@ def _work(job):
     out = []
     for state, iv in items:
         try:
+            strip = st.opts.get("strip_input", lambda x: x)
+            if st.opts.get("meta"):
+                o, ds = st.step_meta(state, strip(iv), cdsel(iv))
+                out.append((state, iv, o, ("multi", tuple(ds)), None))
+                continue
             if cdsel is not None:
                 cds = cdsel(iv)
-                o, d = st.step(state, st.opts.get("strip_input", lambda x: x)(iv), cds)
+                o, d = st.step(state, strip(iv), cds)
             else:
                 o, d = st.step(state, iv)
             out.append((state, iv, o, d, None))
@@ -243,9 +249,12 @@ class GraphLoop:
                     g.errors.append((s, iv, err))
                     continue
                 before = len(g.states)
-                di = g.intern(d)
+                if isinstance(d, tuple) and len(d) == 2 and d[0] == "multi":
+                    di = [g.intern(x) for x in d[1]]      # one successor per metastable resolution
+                else:
+                    di = g.intern(d)
                 if len(g.states) > before:
-                    new_states.setdefault(spec_json, []).append(di)
+                    new_states.setdefault(spec_json, []).extend(range(before, len(g.states)))
                 kk = tlcmod.tuple_key(iv)
                 if kk not in g.succ[s]:
                     g._nedges += 1
@@ -262,20 +271,23 @@ class GraphLoop:
         little some unused edges are computed.  Verdicts never depend on it."""
         hint = self.hint
         total = 0
+        if self.total_budget <= 0 or self.spec_budget <= 0:
+            return 0
         frontier = []       # (di, s, ctx)
         for di, s, iv in computed:
             g = self.duts[di]
             e = g.succ[s].get(tlcmod.tuple_key(iv))
             if e is None:
                 continue
-            o, d = e
+            o, dd = e
             for ctx in list(g.ctxs.get(s, ())) or [hint.init(g.cfg)]:
                 if not hint.allowed(g.cfg, ctx, iv):
                     continue
                 nctx = hint.next(g.cfg, ctx, iv, o)
-                if nctx not in g.ctxs.setdefault(d, set()):
-                    g.ctxs[d].add(nctx)
-                    frontier.append((di, d, nctx))
+                for d in (dd if isinstance(dd, list) else [dd]):
+                    if nctx not in g.ctxs.setdefault(d, set()):
+                        g.ctxs[d].add(nctx)
+                        frontier.append((di, d, nctx))
         while frontier:
             needs = {}
             if sum(g.nedges for g in self.duts) >= self.total_budget:
@@ -300,11 +312,12 @@ class GraphLoop:
                     e = g.succ[s].get(k)
                     if e is None or not hint.allowed(g.cfg, ctx, iv):
                         continue
-                    o, d = e
+                    o, dd = e
                     nctx = hint.next(g.cfg, ctx, iv, o)
-                    if nctx not in g.ctxs.setdefault(d, set()):
-                        g.ctxs[d].add(nctx)
-                        nxt.append((di, d, nctx))
+                    for d in (dd if isinstance(dd, list) else [dd]):
+                        if nctx not in g.ctxs.setdefault(d, set()):
+                            g.ctxs[d].add(nctx)
+                            nxt.append((di, d, nctx))
             frontier = nxt
         return total
 
@@ -396,7 +409,8 @@ class GraphLoop:
         for g in self.duts:
             made = make(g.spec)
             opts = made[3] if len(made) > 3 else {}
-            st = Stepper(made[0], made[1], made[2], clocks=tuple(opts.get("clocks", ("sys",))), engine="ref")
+            st = Stepper(made[0], made[1], made[2], clocks=tuple(opts.get("clocks", ("sys",))), engine="ref",
+                         record_multireg=bool(opts.get("meta")))
             if g.sig is not None and st.sig != g.sig:
                 raise AssertionError("register ordering of the reference instance differs for %r" % (g.spec,))
             cdsel = opts.get("cds_from_input")
@@ -406,6 +420,13 @@ class GraphLoop:
             for s, k in edges[:per_dut]:
                 iv = g.alphabet.get(k)
                 if iv is None:
+                    continue
+                if opts.get("meta"):
+                    o, dd = st.step_meta(g.states[s], strip(iv), cdsel(iv))
+                    eo, ed = g.succ[s][k]
+                    if tuple(o) != tuple(eo) or sorted(g.states[x] for x in ed) != sorted(dd):
+                        raise AssertionError("compiled stepper disagrees with reference evaluator (meta): dut %r" % (g.spec,))
+                    n += 1
                     continue
                 if cdsel is not None:
                     o, d = st.step(g.states[s], strip(iv), cdsel(iv))
